@@ -232,6 +232,8 @@ def main():
         cases += G.collections(ck.rng, 12000, 3, 5) + G.collections(ck.rng, 3000, 6, 7) + G.collections(ck.rng, 200, 8, 8) + G.long_chain_cases(ck.rng, 28, 7) + G.long_chain_cases(ck.rng, 12, 8) + G.dense_collections(ck.rng, 8000, 4, 6) + G.sparse_collections(ck.rng, 5000, 4, 6, 9, 18)
     # the constructed family of the known finding is always present
     cases.append(("star", 5, ["XIIII", "ZIIII", "ZZIII", "ZIZII", "ZIIZI", "ZIIIZ", "ZZZZZ"]))
+    # ... and the witness of Refine/QueueRefine.gen_q_check_dependency_refuted (check_dependency_one_leg accepts the product of five single legs)
+    cases.append(("star", 5, ["XXXXX", "ZIIII", "IZIII", "IIZII", "IIIZI", "IIIIZ", "ZZZZZ"]))
     res = ck.impl("c01", [{"op": "classify", "gens": g} for _, _, g in cases], per_case_s=120)
     hc, hr = history_cases(ck, 200 if ck.quick else 2000)
     cases += hc; res += hr
